@@ -1034,6 +1034,260 @@ def _cplx(z):
     raise TypeError(z)
 
 
+# ------------------------ stored states: correspondence with Model/C15_st.v
+ST_HEADER = ("From Coq Require Import List ZArith.\nImport ListNotations.\n"
+             "From QV Require Import Model.C15 Model.C15_st.\nOpen Scope Z_scope.\n")
+ST_D = 8          # one 2x2 complex matrix flattened: 4 real parts, 4 imaginary parts
+
+
+def st_flat_mat(a):
+    a = np.asarray(a, dtype=complex).ravel()
+    return [float(x.real) for x in a] + [float(x.imag) for x in a]
+
+
+def st_mats_vec(mats):
+    out = []
+    for m in mats:
+        out.extend(st_flat_mat(dm_of(m)))
+    return out
+
+
+class StImpl:
+    def __init__(self, case):
+        import qutip.solver.multitrajresult as M
+        self.M = M
+        self.case = case
+        self.nt = case["nt"]
+        self.cls = getattr(M, case.get("cls", "McResult"))
+        self.objs = []
+        self.outcomes = []
+        self.reads = []
+
+    def mk_traj(self, o, tr):
+        ss, sf = o.options["store_states"], o.options["store_final_state"]
+        t = FakeTrajS({"seed": tr["id"], "times": 0, "coll": 0,
+                       "e": [[0, 1]] * self.nt}, (1, self.nt), tr["mats"], bool(ss), bool(sf))
+        return t
+
+    def step(self, op):
+        k = op[0]
+        try:
+            if k == "new":
+                self.objs.append(self.cls(["e0"], {"store_states": op[1], "store_final_state": op[2],
+                                                  "keep_runs_results": op[3]}, solver="fake",
+                                          stats={"run time": 0.0, "num_collapse": 1}))
+                return 0
+            if k == "merge":
+                if not (0 <= op[1] < len(self.objs) and 0 <= op[2] < len(self.objs)):
+                    return 1
+                a, b = self.objs[op[1]], self.objs[op[2]]
+                m = a.merge(b, None if op[3] is None else float(fr(op[3])))
+                self.objs.append(m)
+                return 0
+            if not (0 <= op[1] < len(self.objs)):
+                return 1
+            o = self.objs[op[1]]
+            if k == "add":
+                t = self.mk_traj(o, op[2])
+                o.add((t.seed_id, t, float(fr(op[3]))))
+            elif k == "adddet":
+                o.add_deterministic(self.mk_traj(o, op[2]), float(fr(op[3])))
+            elif k == "rstates":
+                self.reads.append(("states", op[1], self.val_states(o.average_states)))
+            elif k == "rfinal":
+                self.reads.append(("final", op[1], self.val_final(o.average_final_state)))
+            return 0
+        except ValueError:
+            return 2
+        except ZeroDivisionError:
+            return 3
+        except (TypeError, AttributeError):
+            return 4
+
+    @staticmethod
+    def val_states(v):
+        if v is None:
+            return (0, [])
+        out = []
+        for q in v:
+            out.extend(st_flat_mat(q.full()))
+        return (1, out)
+
+    @staticmethod
+    def val_final(v):
+        if v is None:
+            return (0, [])
+        return (1, st_flat_mat(v.full()))
+
+    def snap(self, o):
+        def ssum(s):
+            if s is None:
+                return None
+            st = None
+            if s.sum_states:
+                st = []
+                for q in s.sum_states:
+                    st.extend(st_flat_mat(q.full()))
+            fin = None if s.sum_final_state is None else st_flat_mat(s.sum_final_state.full())
+            return (st, fin)
+
+        def pure(prop, val):
+            c = copy.copy(o)
+            c._sum_rel = copy.copy(o._sum_rel)
+            c._sum_det = copy.copy(o._sum_det)
+            try:
+                return val(getattr(c, prop))
+            except (TypeError, AttributeError):
+                return (2, [])
+        return {"opts": (bool(o.options["store_states"]), bool(o.options["store_final_state"]),
+                         bool(o.options["keep_runs_results"])),
+                "num": int(o.num_trajectories),
+                "rel": ssum(o._sum_rel), "det": ssum(o._sum_det),
+                "w_rel": [float(w) for w in o._trajectories_weight_info],
+                "w_det": [float(w) for w in o._deterministic_weight_info],
+                "trajs": [t.seed_id for t in o.trajectories],
+                "dtrajs": [t.seed_id for t in o.deterministic_trajectories],
+                "avg_states": pure("average_states", self.val_states),
+                "avg_final": pure("average_final_state", self.val_final)}
+
+    def run(self):
+        for op in self.case["ops"]:
+            self.outcomes.append(self.step(op))
+        return {"outcomes": self.outcomes, "objs": [self.snap(o) for o in self.objs]}
+
+
+def st_cvec(v):
+    return clist(v, lambda x: "(%s, %s)" % (cz(Fr(x).numerator), cz(Fr(x).denominator)))
+
+
+def st_ctraj(tr, ss, sf, nt):
+    vec = st_mats_vec(tr["mats"])
+    st = "(Some %s)" % st_cvec(vec) if ss else "None"
+    fin = "(Some %s)" % st_cvec(vec[-ST_D:]) if (ss or sf) else "None"
+    return "(mkst %s %s %s)" % (cz(tr["id"]), st, fin)
+
+
+def st_cops(case):
+    """Coq term; trajectories carry states exactly when the options of the
+    object they are added to ask for them (as the solvers produce them)."""
+    ss, sf = case["ss"], case["sf"]
+    out = []
+    for op in case["ops"]:
+        k = op[0]
+        if k == "new":
+            out.append("SNew %s %s %s" % (cbool(op[1]), cbool(op[2]), cbool(op[3])))
+        elif k == "add":
+            out.append("SAdd %s %s %s" % (cnat(op[1]), st_ctraj(op[2], ss, sf, case["nt"]), cq(op[3])))
+        elif k == "adddet":
+            out.append("SAddDet %s %s %s" % (cnat(op[1]), st_ctraj(op[2], ss, sf, case["nt"]), cq(op[3])))
+        elif k == "merge":
+            out.append("SMerge %s %s %s" % (cnat(op[1]), cnat(op[2]),
+                                           "None" if op[3] is None else "(Some %s)" % cq(op[3])))
+        elif k == "rstates":
+            out.append("SReadStates %s" % cnat(op[1]))
+        else:
+            out.append("SReadFinal %s" % cnat(op[1]))
+    return "sobserve %s %s" % (cnat(ST_D), clist(out))
+
+
+def st_parse(val):
+    codes, objs = vlib.parse_coq_value(val)
+    out = []
+    for o in objs:
+        ss, sf, keep, num, sums, ws, vals = o
+        rel, det = sums
+        w_rel, w_det, trajs, dtrajs = ws
+        av = (vals[0], vals[1])
+        af = vals[2]
+
+        def ssum(x):
+            return mopt(x, lambda pr: (mopt(pr[0], mvec), mopt(pr[1], mvec)))
+        out.append({"opts": (ss, sf, keep), "num": num, "rel": ssum(rel), "det": ssum(det),
+                    "w_rel": mvec(w_rel), "w_det": mvec(w_det), "trajs": list(trajs),
+                    "dtrajs": list(dtrajs),
+                    "avg_states": (av[0], mvec(av[1])), "avg_final": (af[0], mvec(af[1]))})
+    return {"outcomes": list(codes), "objs": out}
+
+
+def st_compare(im, mo, cstats):
+    if im["outcomes"] != mo["outcomes"]:
+        return "outcomes", im["outcomes"], mo["outcomes"]
+    if len(im["objs"]) != len(mo["objs"]):
+        return "number of objects", len(im["objs"]), len(mo["objs"])
+    for k, (a, b) in enumerate(zip(im["objs"], mo["objs"])):
+        for f in ("opts", "num", "trajs", "dtrajs"):
+            if tuple(a[f]) != tuple(b[f]) if f == "opts" else a[f] != b[f]:
+                return "obj%d.%s" % (k, f), a[f], b[f]
+        for f in ("w_rel", "w_det"):
+            if not vec_eq(b[f], a[f], True, cstats):
+                return "obj%d.%s" % (k, f), a[f], [str(x) for x in b[f]]
+        for f in ("rel", "det"):
+            if (a[f] is None) != (b[f] is None):
+                return "obj%d.%s" % (k, f), a[f], str(b[f])
+            if a[f] is not None:
+                for h, nm in ((0, "sum_states"), (1, "sum_final_state")):
+                    if not vec_eq(b[f][h], a[f][h], True, cstats):
+                        return "obj%d.%s.%s" % (k, f, nm), a[f][h], str(b[f][h])
+        for f in ("avg_states", "avg_final"):
+            if a[f][0] != b[f][0] or not vec_eq(b[f][1], a[f][1], True, cstats):
+                return "obj%d.%s" % (k, f), a[f], str(b[f])
+    return None
+
+
+def st_gen_case(rng, big=False):
+    nt = rng.choice([1, 2, 3])
+    ss, sf = rng.random() < 0.6, rng.random() < 0.5
+    keep_mode = rng.choice(["F", "T", "T", "mixed"])
+    ket = rng.random() < 0.3
+    ops, nums, hast = [], [], []
+    st = {"id": 0}
+
+    def new():
+        k = {"F": False, "T": True, "mixed": rng.random() < 0.5}[keep_mode]
+        ops.append(["new", ss, sf, k])
+        nums.append(0)
+        hast.append(False)
+
+    def traj():
+        st["id"] += 1
+        mats = gen_mats(rng, nt, ket)
+        mats = [[[315 * _z(x) if not isinstance(x, complex) else 315 * x for x in row] for row in m]
+                for m in mats] if not ket else mats
+        return {"id": st["id"], "mats": json.loads(json.dumps(mats, default=_cplx))}
+
+    for _ in range(rng.randint(1, 3)):
+        new()
+    length = rng.randint(5, 30 if big else 18)
+    while len(ops) < length:
+        r = rng.random()
+        i = rng.randrange(len(nums))
+        if r < 0.4:
+            ops.append(["add", i, traj(), [1, 1] if rng.random() < 0.4 else gen_w(rng)])
+            nums[i] += 1
+            hast[i] = True
+        elif r < 0.55:
+            ops.append(["adddet", i, traj(), [rng.randint(1, 8), 16]])
+            hast[i] = True
+        elif r < 0.75:
+            ops.append([rng.choice(["rstates", "rfinal"]), i])
+        elif r < 0.93:
+            j = rng.randrange(len(nums))
+            na, nb = nums[i], nums[j]
+            if hast[i] != hast[j] or na == 0 or nb == 0:
+                if rng.random() < 0.5:
+                    ops.append(["merge", i, j, None])
+                continue
+            if not dyadic(Fr(na, na + nb)):
+                continue
+            ops.append(["merge", i, j, gen_p(rng, na, nb, True)])
+            nums.append(na + nb)
+            hast.append(True)
+        elif len(nums) < 6:
+            new()
+    return {"nt": nt, "ss": ss, "sf": sf, "ops": ops, "keep_mode": keep_mode, "ket": ket,
+            "cls": rng.choice(["McResult", "MultiTrajResult"])}
+
+
 # --------------------------------------------- _minimum_roundoff_ensemble
 def gen_weights(rng):
     """dyadic weights summing to one, with some zero-weight states"""
@@ -1260,6 +1514,37 @@ def run(ctx):
     # 4b. averaged states / final states (implementation-level oracle only)
     for site, sig, what, extra in states_checks(ctx, rng, 60 if ctx.quick else 1500):
         ctx.violation(site, sig, what, extra)
+
+    # 4c. stored states: exact correspondence with Model/C15_st.v
+    scases = [st_gen_case(rng, big=not ctx.quick) for _ in range(70 if ctx.quick else 1500)]
+    simpls = [StImpl(c).run() for c in scases]
+    try:
+        svals = vlib.coq_eval_values("cases_C15_st", ST_HEADER, [st_cops(c) for c in scases], chunk=40)
+    except RuntimeError as e:
+        ctx.violation("corr:C15:states-model-eval", "coqc", "states model evaluation failed",
+                      {"log": str(e)}, found_input=False)
+        svals = []
+    sdist = {"keep_mode": {}, "opts": {}, "merges_ok": 0, "reads": 0}
+    smis = 0
+    for case, im, val in zip(scases, simpls, svals):
+        diff = st_compare(im, st_parse(val), cstats)
+        ctx.cov["traces_validated_against_impl"] += 1
+        km = case["keep_mode"]
+        sdist["keep_mode"][km] = sdist["keep_mode"].get(km, 0) + 1
+        ok_ = "%s%s" % ("S" if case["ss"] else "-", "F" if case["sf"] else "-")
+        sdist["opts"][ok_] = sdist["opts"].get(ok_, 0) + 1
+        sdist["merges_ok"] += sum(1 for op, c in zip(case["ops"], im["outcomes"]) if op[0] == "merge" and c == 0)
+        sdist["reads"] += sum(1 for op in case["ops"] if op[0] in ("rstates", "rfinal"))
+        ctx.count_case(("st", json.dumps(case, sort_keys=True)),
+                       nontrivial=any(op[0] in ("rstates", "rfinal", "merge") for op in case["ops"]))
+        if diff is not None:
+            smis += 1
+            if smis <= 3:
+                ctx.violation("corr:multitrajresult.states", "model-differs:" + diff[0].split(".", 1)[-1],
+                              "states model and implementation disagree on %s" % diff[0],
+                              {"st_case": case, "field": diff[0], "impl": diff[1], "model": str(diff[2]),
+                               "kind": "stcorr"}, found_input=False)
+    dist["states_corr"] = sdist
 
     # 5. _minimum_roundoff_ensemble: model correspondence + specification oracle
     ecases = ens_cases(ctx, rng, 150 if ctx.quick else 5000)
